@@ -97,13 +97,19 @@ Theorem C09_roundtrip_original_broadcast : forall d, bytes_ok d = true -> lenN d
 Proof. exact roundtrip_orig_broadcast. Qed.
 Print Assumptions C09_roundtrip_original_broadcast.
 
-(* a six-octet address built from an (ip, port) tuple carries ip and port unchanged for ports < 2^16 *)
+(* Address((ip, port)) with a port in 0..65535 yields six well-formed octets carrying ip and port unchanged *)
 Theorem C09_ip_port_octets : forall a b c d port,
   a < 256 -> b < 256 -> c < 256 -> d < 256 -> (0 <= port < 65536)%Z ->
-  exists l, ip_addr a b c d port = ABytes l /\ wf_addr (ABytes l) = true /\
+  exists l, mk_ip a b c d port = Ok (ABytes l) /\ wf_addr (ABytes l) = true /\
             firstn 4 l = [a; b; c; d] /\ Z.of_N (port_of l) = port.
 Proof. exact ip_port_octets. Qed.
 Print Assumptions C09_ip_port_octets.
+
+(* ... and any other port is refused at construction (ValueError), so no frame is built from it *)
+Theorem C09_ip_port_refused : forall a b c d port,
+  (port < 0 \/ 65535 < port)%Z -> mk_ip a b c d port = Err ValueErr.
+Proof. exact ip_port_refused. Qed.
+Print Assumptions C09_ip_port_refused.
 
 (* a table (or other parameter) changed after construction without the length being recomputed:
    the encoder refuses rather than emit a frame whose length field lies *)
